@@ -490,7 +490,11 @@ def suite_ro_mutators(tier, seed):
         for variant in ["map", "map_copy_ro"]:
             for mut in [{"k": "setmin", "v": 16}, {"k": "incdisc", "v": 3}, {"k": "clear"}, {"k": "truncate", "v": 300},
                         {"k": "ab", "n": 8, "o": False}, {"k": "at", "s": 8, "a": 8, "o": False},
-                        {"k": "aa", "s": 8, "a": 8, "n": 4, "o": False}, {"k": "discard"}, {"k": "ab", "n": 8, "o": True}]:
+                        {"k": "aa", "s": 8, "a": 8, "n": 4, "o": False}, {"k": "discard"}, {"k": "ab", "n": 8, "o": True},
+                        # (not of the safe API, so no concern of C09: the documented panics of the unsafe mutable accessors,
+                        # compared by the implementation-level model only)
+                        {"k": "rawmut", "w": "bytes", "off": 48, "n": 8}, {"k": "rawmut", "w": "ptr", "off": 48},
+                        {"k": "rawmut", "w": "aligned", "off": 48}]:
                 for shape in [[AB(16)], [AB(40), AB(24), {"k": "drop", "h": 1}]]:
                     # every free-list kind (the read-only guards sit next to per-kind dispatch) x with / without a prefix
                     for kind in ["none", "opt", "pes"]:
